@@ -187,6 +187,7 @@ def check(repo, tier="quick"):
 
     quantmatrix.rule(repo, res, "C05.e")
     rule_prefix(repo, res, gens)
+    rule_field_widths(repo, res, gens)
     lints.rule(repo, res, "C05.e", [n.split("vc2_conformance.", 1)[-1] for n in sorted(repo.modules) if n.startswith("vc2_conformance.test_cases")])
     res.floor("C05.e", 15)
     res.floor("C05.a", 9)
@@ -387,3 +388,32 @@ def rule_prefix(repo, res, gens):
             want = "(%(s)s['slice_y_length'] + %(s)s['slice_c1_length'] + %(s)s['slice_c2_length']) * %(t)s['slice_size_scaler']" % {"s": slv, "t": stv}
             ok = norm(g.elt) == norm(ast.parse(want).body[0].value)
     res.check(ok, "C05.e", "slice_prefix_bytes:minimum-over-all-slices", where, "on the lossy arm the number of prefix bytes must be min(...) over every slice of the sequence of (slice_y_length + slice_c1_length + slice_c2_length) * slice_size_scaler (found %s): each slice then gives up that many coefficient bytes, and any larger number drives the smaller slices' length field negative" % found, by="min over iter_slices_in_sequence(codec_features, sequence) of the coefficient bytes")
+
+
+def rule_field_widths(repo, res, gens):
+    """hand-set slice fields of the generators fit their bitstream fields (the serialiser rejects a value wider than the field)"""
+    # (1) lossless_quantization: qindex chosen as max matrix entry + constant, stored in every HQ slice (8-bit field)
+    if "lossless_quantization" in gens:
+        m, f = gens["lossless_quantization"]
+        q = None
+        for a in ast.walk(f):
+            if isinstance(a, ast.Assign) and isinstance(a.value, ast.Call) and dotted(a.value.func) == "compute_qindex_with_distinct_quant_factors" and isinstance(a.targets[0], ast.Name):
+                q = a.targets[0].id
+        guarded = False
+        if q:
+            for i in ast.walk(f):
+                if isinstance(i, ast.If) and norm(i.test) in ("%s > 255" % q, "%s >= 256" % q) and any(isinstance(x, (ast.Return, ast.Raise)) for x in i.body):
+                    guarded = True
+        res.check(guarded, "C05.e", "lossless_quantization:qindex-fits-8-bit-field", "%s:lossless_quantization" % m.rel, "the index max(matrix entry) + MINIMUM_DISTINCT_QINDEX is stored in every slice without a check against the 8-bit qindex field: a custom quantisation matrix with an entry of 249 or more yields a test case that cannot be serialised (OutOfRangeError) instead of being skipped", by="`if qindex > 255: return None` before the stores")
+    # (2) fill_ld_slice_padding: slice_y_length set to the whole data size; the field is intlog2(8n - 7) bits wide, 0 for 1-byte slices
+    pm = repo.mod("test_cases.decoder.pictures")
+    fn = pm.funcs.get("fill_ld_slice_padding")
+    if fn is None:
+        raise AnalysisError("anchor vanished: test_cases.decoder.pictures.fill_ld_slice_padding")
+    guarded = False
+    for i in ast.walk(fn):
+        if isinstance(i, ast.If) and any(isinstance(x, (ast.Raise, ast.Return)) for x in i.body):
+            t = norm(i.test)
+            if "length_field_bits" in t or ("slice_data_bits" in t and ("<" in t or "==" in t)):
+                guarded = True
+    res.check(guarded, "C05.e", "fill_ld_slice_padding:y-length-fits-its-field", "%s:fill_ld_slice_padding" % pm.rel, "slice_y_length is set to the slice's whole data size (1 bit for a one-byte low-delay slice) although the length field is intlog2(8n - 7) bits wide, i.e. 0 bits for n = 1: for such slices the Y variants of slice_padding_data cannot be serialised; the sibling cut_off_value_at_end_of_ld_slice raises UnsatisfiableBlockSizeError in the same situation", by="guard on the field width / data size before the store")
